@@ -58,6 +58,8 @@ def auto_worlds(c, bundle: str, quick: bool, make=AUTO, extra=None, needs=(), gr
                "auto:Idle:DispatchBase:DispatchBase", "default:ChargingBase>ReserveBase", "default:DispatchBase>ReserveBase",
                "default:ChargingStation>Idle|auto:ChargingStation:Idle:Idle"] + list(needs))
     fsx(c, make + (dict(kw, controller=True),), ("hivemc.bundles", bundle, {}), K=2, H=7 if quick else 9)
+    # the human driver has no plug at home: going off shift he charges at a public station on the way (queues with the others)
+    fsx(c, make + (dict(kw, home_plug=False),), ("hivemc.bundles", bundle, {}), K=3, H=12 if quick else 18)
     if grid:
         # the same default control stack on the street grid (several links per route, off-street addresses)
         fsx(c, GRID + ({"auto": True},), ("hivemc.bundles", bundle, {}), K=2, H=12 if quick else 20)
